@@ -303,6 +303,19 @@ def parallel(fn, shards, workers: int | None = None, pin: bool = False):
 
     from multiprocessing.connection import wait
 
+    try:
+        return _parallel_loop(ctx, pending, running, results, errors, workers, _child, wait, pickle)
+    finally:
+        # never leave children behind (a failing parent would otherwise hang at exit joining children that block on
+        # a pipe nobody reads)
+        for r, (idx, p) in list(running.items()):
+            try:
+                p.terminate()
+            except Exception:
+                pass
+
+
+def _parallel_loop(ctx, pending, running, results, errors, workers, _child, wait, pickle):
     while pending or running:
         while pending and len(running) < workers:
             idx, shard = pending.pop(0)
